@@ -124,7 +124,9 @@ CHECKS = {
             "DropFinal and KGIsolation on the abstract machine.",
             "Concurrent part (engine sched, run first by bin/check C17): every interleaving, at the cfg-guarded scheduling points, of "
             "an insert into h with drop h + create h (TLC-enumerated by MC_Sched_D) is forced on real threads; SchedTrace accepts iff "
-            "after the acknowledged drop none of the old incarnation's tuples is served or recovered and graph g is untouched. "
+            "after the acknowledged drop none of the old incarnation's tuples is served or recovered and graph g is untouched; "
+            "KgLife.tla (the insert / drop / re-create protocol) is model-checked (the pinned variant is an expected violation) and "
+            "every run's log is validated as a behaviour of it (KgLifeTrace.tla: recovered and served tuples must be KgLife's). "
             "Interleaving granularity = the scheduling points. " + TB, "7 C17"),
     "C15": ("sched", "TLC-enumerated thread interleavings (MC_Sched.tla) forced on real threads at cfg-guarded scheduling points; "
             "crash images reopened by real recovery; judged by SchedTrace.tla against Store.tla",
